@@ -10,6 +10,8 @@ package vault
 //   TestVerif_C14_Faults      every single storage fault inside a write / patch: before == after through the API
 //   TestVerif_C14_Gated       concurrent clients under the storage-operation gate (bounded-preemption enumeration + PCT)
 //   TestVerif_C14_Free        free-running concurrent clients (also with the physical cache on, and with one fault)
+// The operation alphabet includes both ways of changing key metadata: PUT
+// (meta-put) and the JSON merge PATCH (meta-patch).
 // Concurrent histories are checked by porcupine against the reference model (one
 // partition per secret path; 2-minute timeout => inconclusive) plus direct counters.
 
@@ -44,17 +46,18 @@ type c14Cfg struct {
 
 // c14In is one client operation.
 type c14In struct {
-	Kind     string            `json:"kind"` // write patch read delete-latest delete undelete destroy meta-put meta-read meta-delete
+	Kind     string            `json:"kind"` // write patch read delete-latest delete undelete destroy meta-put meta-patch meta-read meta-delete
 	Path     string            `json:"path"`
 	Cas      int               `json:"cas"`               // -1 = not supplied
 	Data     map[string]string `json:"data,omitempty"`    // write: whole document; patch: keys to set
 	Null     []string          `json:"null,omitempty"`    // patch: keys set to null (removed)
 	Version  int               `json:"version,omitempty"` // read: 0 = current
 	Versions []int             `json:"versions,omitempty"`
-	MaxV     int               `json:"set_max_versions"`  // meta-put: -1 = not supplied
-	CasReq   int               `json:"set_cas_required"`  // meta-put: -1 = not supplied, 0 false, 1 true
+	MaxV     int               `json:"set_max_versions"` // meta-put / meta-patch: -1 = not supplied
+	CasReq   int               `json:"set_cas_required"` // meta-put / meta-patch: -1 = not supplied, 0 false, 1 true
 	Custom   string            `json:"set_custom,omitempty"`
-	MCas     int               `json:"metadata_cas"` // meta-put: -1 = not supplied
+	CustomRm bool              `json:"remove_custom,omitempty"` // meta-patch: custom_metadata {"tag": null}
+	MCas     int               `json:"metadata_cas"`            // meta-put / meta-patch: -1 = not supplied
 }
 
 func (in c14In) String() string {
@@ -74,9 +77,12 @@ func (in c14In) String() string {
 		}
 	case "delete", "undelete", "destroy":
 		s += fmt.Sprintf(" %v", in.Versions)
-	case "meta-put":
+	case "meta-put", "meta-patch":
 		if in.MaxV >= 0 {
 			s += fmt.Sprintf(" max_versions=%d", in.MaxV)
+		}
+		if in.CustomRm {
+			s += " custom=null"
 		}
 		if in.CasReq >= 0 {
 			s += fmt.Sprintf(" cas_required=%d", in.CasReq)
@@ -349,6 +355,33 @@ func c14Apply(cfg c14Cfg, st *c14State, in c14In) (c14Out, *c14State) {
 			n.Custom = in.Custom
 		}
 		return c14Out{Class: "ok"}, n.seal()
+	case "meta-patch":
+		// JSON merge patch of the key's settings. The key metadata must exist; it
+		// never touches versions, the current version or any version's data / marks.
+		if !st.Exists {
+			return c14Out{Class: "nf"}, st
+		}
+		if in.MCas >= 0 && in.MCas != st.MVer {
+			return c14Out{Class: "refused"}, st
+		}
+		if in.MaxV < 0 && in.CasReq < 0 && in.Custom == "" && !in.CustomRm {
+			return c14Out{Class: "ok"}, st // nothing to patch
+		}
+		n := st.clone()
+		n.MVer = st.MVer + 1
+		if in.MaxV >= 0 {
+			n.MaxV = in.MaxV
+		}
+		if in.CasReq >= 0 {
+			n.CasReq = in.CasReq == 1
+		}
+		if in.CustomRm {
+			n.Custom = ""
+		}
+		if in.Custom != "" {
+			n.Custom = in.Custom
+		}
+		return c14Out{Class: "ok"}, n.seal()
 	case "meta-read":
 		if !st.Exists {
 			return c14Out{Class: "nf"}, st
@@ -530,6 +563,24 @@ func (e *c14Env) request(in c14In) vReq {
 		}
 		if in.Custom != "" {
 			r.Data["custom_metadata"] = map[string]any{"tag": in.Custom}
+		}
+		if in.MCas >= 0 {
+			r.Data["metadata_cas"] = in.MCas
+		}
+	case "meta-patch":
+		r.Op = logical.PatchOperation
+		r.Path = c14Mount + "/metadata/" + in.Path
+		r.Data = map[string]any{}
+		if in.MaxV >= 0 {
+			r.Data["max_versions"] = in.MaxV
+		}
+		if in.CasReq >= 0 {
+			r.Data["cas_required"] = in.CasReq == 1
+		}
+		if in.Custom != "" {
+			r.Data["custom_metadata"] = map[string]any{"tag": in.Custom}
+		} else if in.CustomRm {
+			r.Data["custom_metadata"] = map[string]any{"tag": nil}
 		}
 		if in.MCas >= 0 {
 			r.Data["metadata_cas"] = in.MCas
@@ -731,8 +782,11 @@ func (h *c14Hist) readBack(paths []string) {
 	}
 }
 
+func c14Mutates(kind string) bool { return kind != "read" && kind != "meta-read" }
+
 type c14Stats struct {
 	overlapPairs   int
+	metaPatchPairs int // a metadata PATCH overlapping another mutator of the same path
 	casRaces       int
 	casRaceOneWins int
 	writesOK       int
@@ -819,6 +873,23 @@ func (h *c14Hist) check(r *kit.Result, caseID string, faultFree bool, extra map[
 					}
 				}
 			}
+			// the last metadata read of the history (the final read-back) must not show a
+			// current version below one that was handed out to a successful write before it
+			var lastMeta *c14Op
+			for i := range ops {
+				if ops[i].In.Kind == "meta-read" && ops[i].Out.Class == "ok" && (lastMeta == nil || ops[i].Call > lastMeta.Call) {
+					lastMeta = &ops[i]
+				}
+			}
+			if lastMeta != nil {
+				for _, o := range succ {
+					if o.Ret < lastMeta.Call && o.Out.Version > lastMeta.Out.kCur {
+						r.Violate("C14-acknowledged-version-lost", caseID, fmt.Sprintf("%s was acknowledged, and afterwards the metadata of %s reports current_version %d: %s", o.String(), p, lastMeta.Out.kCur, lastMeta.String()), witness(p))
+						ok = false
+						break
+					}
+				}
+			}
 			if ok && maxV-len(seen) > unknownOnPath {
 				r.Violate("C14-version-gap", caseID, fmt.Sprintf("successful writes on %s received versions up to %d but only %d distinct numbers were handed out (and %d writes have an unknown outcome)", p, maxV, len(seen), unknownOnPath), witness(p))
 				ok = false
@@ -832,6 +903,9 @@ func (h *c14Hist) check(r *kit.Result, caseID string, faultFree bool, extra map[
 					continue
 				}
 				st.overlapPairs++
+				if am, bm := c14Mutates(a.In.Kind), c14Mutates(b.In.Kind); am && bm && (a.In.Kind == "meta-patch" || b.In.Kind == "meta-patch") {
+					st.metaPatchPairs++
+				}
 				aw := a.In.Kind == "write" || a.In.Kind == "patch"
 				bw := b.In.Kind == "write" || b.In.Kind == "patch"
 				if aw && bw && a.In.Cas >= 0 && a.In.Cas == b.In.Cas {
@@ -944,11 +1018,11 @@ func c14Gen(rng *kit.Rand, g c14GenOpts, k *c14Know, n int) c14In {
 	}
 	w := rng.Intn(100)
 	switch {
-	case w < 26:
+	case w < 25:
 		in.Kind = "write"
 		in.Cas = cas()
 		in.Data = map[string]string{"id": id, "w": id}
-	case w < 40:
+	case w < 38:
 		in.Kind = "patch"
 		in.Cas = cas()
 		in.Data = map[string]string{"id": id}
@@ -961,24 +1035,27 @@ func c14Gen(rng *kit.Rand, g c14GenOpts, k *c14Know, n int) c14In {
 				in.Null = []string{nk}
 			}
 		}
-	case w < 62:
+	case w < 58:
 		in.Kind = "read"
 		if rng.Intn(100) >= 55 {
 			in.Version = 1 + rng.Intn(k.cur[p]+2)
 		}
-	case w < 67:
+	case w < 63:
 		in.Kind = "delete-latest"
-	case w < 73:
+	case w < 69:
 		in.Kind = "delete"
 		in.Versions = versions()
-	case w < 79:
+	case w < 75:
 		in.Kind = "undelete"
 		in.Versions = versions()
-	case w < 84:
+	case w < 80:
 		in.Kind = "destroy"
 		in.Versions = versions()
-	case w < 91:
+	case w < 93:
 		in.Kind = "meta-put"
+		if w >= 86 {
+			in.Kind = "meta-patch"
+		}
 		switch rng.Intn(3) {
 		case 0:
 			// the key-level value is only ever 0 or >= the mount-level one (see assumptions)
@@ -991,6 +1068,9 @@ func c14Gen(rng *kit.Rand, g c14GenOpts, k *c14Know, n int) c14In {
 			in.CasReq = rng.Intn(2)
 		default:
 			in.Custom = id
+			if in.Kind == "meta-patch" && rng.Chance(1, 4) {
+				in.Custom, in.CustomRm = "", true
+			}
 		}
 		if rng.Chance(1, 4) {
 			in.MCas = k.mver[p]
@@ -1056,7 +1136,7 @@ func c14ShardOf() int {
 func TestVerif_C14_Sequential(t *testing.T) {
 	seed := kit.Seed(14)
 	shard := c14ShardOf()
-	r := kit.NewResult(t, "c14-sequential", seed, "single-client histories of 60 operations (write/patch with cas absent, equal, stale, ahead or 0; read current / numbered version; delete latest; delete, undelete, destroy of version lists; metadata put of max_versions in {0,2,3}, cas_required, custom metadata with and without metadata_cas; metadata read; metadata delete; mount config changes of cas_required and max_versions) on two paths, transactional and non-transactional store: every response is compared with the reference versioned-register model; a history is non-trivial when it contains a refused CAS write, a pruned version and a deleted or destroyed version read; distinct by its operation/response sequence")
+	r := kit.NewResult(t, "c14-sequential", seed, "single-client histories of 60 operations (write/patch with cas absent, equal, stale, ahead or 0; read current / numbered version; delete latest; delete, undelete, destroy of version lists; metadata put and metadata PATCH (JSON merge patch, incl. removal of a custom metadata key) of max_versions in {0,2,3}, cas_required, custom metadata with and without metadata_cas; metadata read; metadata delete; mount config changes of cas_required and max_versions) on two paths, transactional and non-transactional store: every response is compared with the reference versioned-register model; a history is non-trivial when it contains a refused CAS write, a pruned version and a deleted or destroyed version read; distinct by its operation/response sequence")
 	defer r.Write(t)
 	for _, tx := range []bool{false, true} {
 		e := c14Boot(t, tx, false)
@@ -1082,6 +1162,7 @@ func TestVerif_C14_Sequential(t *testing.T) {
 	r.Require("seq_reads_of_pruned_version", 300)
 	r.Require("seq_reads_of_deleted_or_destroyed", 150)
 	r.Require("seq_reads_ok", 500)
+	r.Require("seq_metadata_patches_applied_to_key_with_versions", 200)
 }
 
 func c14SeqCase(e *c14Env, r *kit.Result, rng *kit.Rand, caseID string) {
@@ -1111,7 +1192,7 @@ func c14SeqCase(e *c14Env, r *kit.Result, rng *kit.Rand, caseID string) {
 			trace = append(trace, fmt.Sprintf("config %+v", cfg))
 		}
 		in := c14Gen(rng, g, know, i)
-		if in.Kind == "meta-put" && in.MaxV > 0 && cfg.MaxV > in.MaxV {
+		if (in.Kind == "meta-put" || in.Kind == "meta-patch") && in.MaxV > 0 && cfg.MaxV > in.MaxV {
 			in.MaxV = cfg.MaxV
 		}
 		op := h.do(0, in)
@@ -1144,6 +1225,10 @@ func c14SeqCase(e *c14Env, r *kit.Result, rng *kit.Rand, caseID string) {
 			flags["refused"] = true
 		case (in.Kind == "write" || in.Kind == "patch") && in.Cas >= 0 && exp.Class == "ok":
 			r.Count("seq_cas_accepted", 1)
+		case in.Kind == "meta-patch" && exp.Class == "ok" && st.Cur > 0:
+			r.Count("seq_metadata_patches_applied_to_key_with_versions", 1)
+		case in.Kind == "meta-patch":
+			r.Count("seq_metadata_patches_refused_or_no_key", 1)
 		case in.Kind == "read" && exp.Class == "ok":
 			r.Count("seq_reads_ok", 1)
 		case in.Kind == "read" && exp.Class == "nfmeta":
@@ -1224,6 +1309,10 @@ func c14MetaPut(p string, maxv, casreq int, custom string) c14In {
 	return c14In{Kind: "meta-put", Path: p, Cas: -1, MaxV: maxv, CasReq: casreq, Custom: custom, MCas: -1}
 }
 
+func c14MetaPatch(p string, maxv, casreq int, custom string, mcas int) c14In {
+	return c14In{Kind: "meta-patch", Path: p, Cas: -1, MaxV: maxv, CasReq: casreq, Custom: custom, MCas: mcas}
+}
+
 func c14FaultScens() []c14FaultScen {
 	three := func(p string) []c14In { return []c14In{c14W(p, -1, "a1"), c14W(p, -1, "a2"), c14W(p, -1, "a3")} }
 	return []c14FaultScen{
@@ -1245,6 +1334,17 @@ func c14FaultScens() []c14FaultScen {
 		}, func(p string) c14In { return c14W(p, 0, "x") }},
 		{"patch", c14Cfg{}, three, func(p string) c14In { return c14Patch(p, -1, "x") }},
 		{"patch-cas-pruning", c14Cfg{MaxV: 2}, three, func(p string) c14In { return c14Patch(p, 3, "x") }},
+		{"meta-patch", c14Cfg{}, three, func(p string) c14In { return c14MetaPatch(p, 2, 1, "x", -1) }},
+		{"meta-patch-mcas-over-deleted", c14Cfg{}, func(p string) []c14In {
+			return append(append([]c14In{c14MetaPut(p, 3, -1, "c")}, three(p)...), c14Op1("delete-latest", p), c14Op1("destroy", p, 1))
+		}, func(p string) c14In { return c14MetaPatch(p, 0, -1, "x", 1) }},
+		{"meta-patch-remove-custom", c14Cfg{MaxV: 3}, func(p string) []c14In {
+			return append(three(p), c14MetaPut(p, -1, 1, "c"))
+		}, func(p string) c14In {
+			in := c14MetaPatch(p, -1, 0, "", -1)
+			in.CustomRm = true
+			return in
+		}},
 	}
 }
 
@@ -1285,7 +1385,7 @@ func (e *c14Env) observe(p string, top int) []string {
 
 func TestVerif_C14_Faults(t *testing.T) {
 	seed := kit.Seed(14)
-	r := kit.NewResult(t, "c14-faults", seed, "for each write/patch scenario (new key, cas=0 under cas_required, existing key with and without cas, pruning by key-level and mount-level max_versions, write over deleted/destroyed versions, key with metadata only, patch, patch with cas and pruning) x store kind: the request is run once on a twin path to count its storage operations n (all operations of the tagged request: token lookup, kv metadata/version reads and writes, transaction begin/commit), then for i in 1..n on a fresh identical path with storage operation i failing once: everything observable through the API (metadata and every numbered version, verbatim incl. timestamps) is compared before/after; a request that reported failure must leave it byte-identical, one that reported success must have produced exactly the model's next state; then the same write is retried fault-free and must get the next consecutive version; non-trivial = the fault fired; distinct by (scenario, store, failed op kind and key class)")
+	r := kit.NewResult(t, "c14-faults", seed, "for each write/patch/metadata-patch scenario (new key, cas=0 under cas_required, existing key with and without cas, pruning by key-level and mount-level max_versions, write over deleted/destroyed versions, key with metadata only, patch, patch with cas and pruning, metadata PATCH of max_versions+cas_required+custom metadata, metadata PATCH with metadata_cas on a key with deleted and destroyed versions, metadata PATCH removing custom metadata) x store kind: the request is run once on a twin path to count its storage operations n (all operations of the tagged request: token lookup, kv metadata/version reads and writes, transaction begin/commit), then for i in 1..n on a fresh identical path with storage operation i failing once: everything observable through the API (metadata and every numbered version, verbatim incl. timestamps) is compared before/after; a request that reported failure must leave it byte-identical, one that reported success must have produced exactly the model's next state; then the same write is retried fault-free and must get the next consecutive version; non-trivial = the fault fired; distinct by (scenario, store, failed op kind and key class)")
 	r.Exhaustive = true
 	defer r.Write(t)
 	for _, tx := range []bool{false, true} {
@@ -1613,6 +1713,7 @@ func c14RunConcurrent(e *c14Env, r *kit.Result, caseID string, seed int64, strea
 	good, st := h.check(r, caseID, pl.faultCl == 0, extra)
 	r.Count("ops", len(h.ops))
 	r.Count("overlapping_op_pairs_same_path", st.overlapPairs)
+	r.Count("metadata_patch_overlapping_another_mutator", st.metaPatchPairs)
 	r.Count("cas_races_overlapped", st.casRaces)
 	r.Count("cas_races_exactly_one_winner", st.casRaceOneWins)
 	r.Count("writes_ok", st.writesOK)
@@ -1747,6 +1848,25 @@ func c14Scens() []c14Scen {
 		{"metadelete-write-read", c14Cfg{}, two, func(p string) [][]c14In {
 			return [][]c14In{{c14Op1("meta-delete", p)}, {c14W(p, 2, "x")}, {rd(p, 0), rd(p, 1)}}
 		}, false},
+		// metadata PATCH (read-modify-write of the key metadata) against every mutator
+		{"metapatch-write-metaread", c14Cfg{}, two, func(p string) [][]c14In {
+			return [][]c14In{{c14MetaPatch(p, 3, -1, "m", -1)}, {c14W(p, -1, "x")}, {c14Op1("meta-read", p), c14W(p, 3, "y")}}
+		}, false},
+		{"metapatch-writecas-read", c14Cfg{}, two, func(p string) [][]c14In {
+			return [][]c14In{{c14MetaPatch(p, -1, -1, "m", 0)}, {c14W(p, 2, "x"), rd(p, 0)}}
+		}, false},
+		{"metapatch-delete-destroy", c14Cfg{}, two, func(p string) [][]c14In {
+			return [][]c14In{{c14MetaPatch(p, -1, 1, "", -1)}, {c14Op1("delete-latest", p)}, {c14Op1("destroy", p, 1), rd(p, 1)}}
+		}, false},
+		{"metapatch-metaput-metaread", c14Cfg{}, two, func(p string) [][]c14In {
+			return [][]c14In{{c14MetaPatch(p, 3, -1, "a", -1)}, {c14MetaPut(p, -1, 1, "")}, {c14Op1("meta-read", p)}}
+		}, false},
+		{"metapatch-patch-read", c14Cfg{}, two, func(p string) [][]c14In {
+			return [][]c14In{{c14MetaPatch(p, 0, -1, "m", -1)}, {c14Patch(p, -1, "x")}, {rd(p, 0), rd(p, 3)}}
+		}, false},
+		{"metapatch-undelete-write", c14Cfg{}, func(p string) []c14In { return append(two(p), c14Op1("delete", p, 2)) }, func(p string) [][]c14In {
+			return [][]c14In{{c14MetaPatch(p, -1, -1, "m", -1)}, {c14Op1("undelete", p, 2)}, {c14W(p, -1, "x")}}
+		}, false},
 	}
 }
 
@@ -1754,7 +1874,7 @@ func TestVerif_C14_Gated(t *testing.T) {
 	seed := kit.Seed(14)
 	shard := c14ShardOf()
 	_, nshards := kit.Shard()
-	r := kit.NewResult(t, "c14-gated", seed, "concurrent clients under the storage-operation gate (gate points: every storage operation under the kv mount's physical prefix and every transaction begin/operation/commit of the tagged clients), transactional and non-transactional store: (a) twelve fixed 2-3 client scenarios on one path (CAS races incl. cas=0 on a new key and under cas_required, write/write/read, write/delete, patch/write, patch/patch, pruning/read, destroy/patch, metadata put/write, undelete/delete/write, metadata delete/write) enumerated depth-first with <=2 preemptions (run cap) and run under uniformly random schedules, (b) generated workloads of 3-6 clients, 20-40 operations over 2-3 paths under seeded PCT schedules (depth 3 and 12) and uniformly random schedules, a quarter of them with one storage fault inside a write; each history (+ sequential preamble and final read-back of metadata and every version) is checked by porcupine per path against the versioned-register model, plus direct counters (no duplicate version, no gap, one winner per cas value); non-trivial = operations of different clients on the same path overlapped in time and a write succeeded; distinct by (operation/response sequence, storage-op order hash)")
+	r := kit.NewResult(t, "c14-gated", seed, "concurrent clients under the storage-operation gate (gate points: every storage operation under the kv mount's physical prefix and every transaction begin/operation/commit of the tagged clients), transactional and non-transactional store: (a) eighteen fixed 2-3 client scenarios on one path (CAS races incl. cas=0 on a new key and under cas_required, write/write/read, write/delete, patch/write, patch/patch, pruning/read, destroy/patch, metadata put/write, undelete/delete/write, metadata delete/write, and a metadata PATCH against write, cas write, delete+destroy, metadata put, patch, undelete+write) enumerated depth-first with <=2 preemptions (run cap) and run under uniformly random schedules, (b) generated workloads of 3-6 clients, 20-40 operations over 2-3 paths under seeded PCT schedules (depth 3 and 12) and uniformly random schedules, a quarter of them with one storage fault inside a write; each history (+ sequential preamble and final read-back of metadata and every version) is checked by porcupine per path against the versioned-register model, plus direct counters (no duplicate version, no gap, one winner per cas value, final current_version not below an acknowledged version); non-trivial = operations of different clients on the same path overlapped in time and a write succeeded; distinct by (operation/response sequence, storage-op order hash)")
 	defer r.Write(t)
 	for _, tx := range []bool{false, true} {
 		e := c14Boot(t, tx, false)
@@ -1844,6 +1964,7 @@ func TestVerif_C14_Gated(t *testing.T) {
 	r.Require("porcupine_partitions_checked", 300)
 	r.Require("concurrent_faults_fired", 5)
 	r.Require("gate_requests_judged_blocked_on_a_lock", 50)
+	r.Require("metadata_patch_overlapping_another_mutator", 150)
 }
 
 func c14RunScen(e *c14Env, r *kit.Result, seed int64, sc c14Scen, si int, pol kit.Policy) (kit.Schedule, bool) {
@@ -1904,4 +2025,5 @@ func TestVerif_C14_Free(t *testing.T) {
 	r.Require("writes_ok", 800)
 	r.Require("porcupine_partitions_checked", 250)
 	r.Require("concurrent_faults_fired", 5)
+	r.Require("metadata_patch_overlapping_another_mutator", 300)
 }
